@@ -9,65 +9,23 @@
 From BV Require Import Base.Prelude Redir.FdTable Redir.Apply Redir.Spec Redir.Prog.
 Local Open Scope nat_scope.
 
-(** classes *)
-Record flags := { k_bothclobber : bool;     (* &>f / >&word under noclobber on an existing regular file *)
-                  k_compound_fail : bool;   (* a redirection of a compound command / function definition failed,
-                                               or a diagnostic had to be written while 2 was unusable *)
+(** classes (the deviations of brush that are still open) *)
+Record flags := { k_diag_unusable : bool;   (* a redirection diagnostic has to be written while 2 is closed / not writable *)
                   k_exec_nested : bool;     (* exec with redirections inside a construct carrying redirections *)
-                  k_std_dup : bool;         (* external command: 0/1/2 is one of the shell's own standard streams of another number *)
-                  k_std_closed : bool;      (* external command: 0/1/2 closed *)
-                  k_selfdup : bool }.       (* n>&n / n<&n while n is closed *)
-Definition no_flags := {| k_bothclobber := false; k_compound_fail := false; k_exec_nested := false;
-                          k_std_dup := false; k_std_closed := false; k_selfdup := false |}.
+                  k_std_closed : bool }.    (* external command: 0/1/2 closed *)
+Definition no_flags := {| k_diag_unusable := false; k_exec_nested := false; k_std_closed := false |}.
 Definition for_ (a b : flags) : flags :=
-  {| k_bothclobber := k_bothclobber a || k_bothclobber b; k_compound_fail := k_compound_fail a || k_compound_fail b;
-     k_exec_nested := k_exec_nested a || k_exec_nested b; k_std_dup := k_std_dup a || k_std_dup b;
-     k_std_closed := k_std_closed a || k_std_closed b; k_selfdup := k_selfdup a || k_selfdup b |}.
-Definition any_flag (f : flags) : bool :=
-  k_bothclobber f || k_compound_fail f || k_exec_nested f || k_std_dup f || k_std_closed f || k_selfdup f.
+  {| k_diag_unusable := k_diag_unusable a || k_diag_unusable b; k_exec_nested := k_exec_nested a || k_exec_nested b;
+     k_std_closed := k_std_closed a || k_std_closed b |}.
+Definition any_flag (f : flags) : bool := k_diag_unusable f || k_exec_nested f || k_std_closed f.
 
 Definition restore (Tsaved Tnow : tbl) (ns : list nat) : tbl :=
   fold_left (fun T n => match tlookup Tsaved n with Some e => tset T n e | None => tremove T n end) ns Tnow.
 
-(** does a redirection list contain, at the moment it is evaluated, the &> form on an existing
-    regular file under noclobber *)
-Fixpoint both_clobber (nc : bool) (w : world) (T : tbl) (rs : list redir) : bool :=
-  match rs with
-  | [] => false
-  | r :: rs' =>
-      (match r with
-       | RBoth p false => nc && is_file w p
-       | RDupWord (None | Some 1%nat) p => nc && is_file w p
-       | _ => false
-       end)
-      || match spec_redirect1 nc w T r with
-         | inl (w', T') => both_clobber nc w' T' rs'
-         | inr _ => false
-         end
-  end.
-
-(** ... or a duplication of a closed descriptor onto itself *)
-Fixpoint selfdup_closed (nc : bool) (w : world) (T : tbl) (rs : list redir) : bool :=
-  match rs with
-  | [] => false
-  | r :: rs' =>
-      (match r with
-       | RDup n out src => Nat.eqb src (match n with Some n => n | None => if out then 1 else 0 end)
-                           && match flat_lookup T src with None => true | Some _ => false end
-       | _ => false
-       end)
-      || match spec_redirect1 nc w T r with
-         | inl (w', T') => selfdup_closed nc w' T' rs'
-         | inr _ => false
-         end
-  end.
-
 Definition std_flags (T : tbl) : flags :=
   let e n := flat_lookup T n in
   let closed := match e 0%nat, e 1%nat, e 2%nat with Some _, Some _, Some _ => false | _, _, _ => true end in
-  let dup n := match e n with Some id => Nat.ltb id 3 && negb (Nat.eqb id n) | None => false end in
-  {| k_bothclobber := false; k_compound_fail := false; k_exec_nested := false;
-     k_std_dup := dup 0%nat || dup 1%nat || dup 2%nat; k_std_closed := closed; k_selfdup := false |}.
+  {| k_diag_unusable := false; k_exec_nested := false; k_std_closed := closed |}.
 
 Definition spec_action (m : msgtable) (w : world) (T : tbl) (a : action) : world * flags :=
   match a with
@@ -75,27 +33,23 @@ Definition spec_action (m : msgtable) (w : world) (T : tbl) (a : action) : world
   | AXProbe tag => (probe w (flat_lookup T) tag, std_flags T)
   end.
 
+Definition fl_diag := {| k_diag_unusable := true; k_exec_nested := false; k_std_closed := false |}.
+Definition fl_exec := {| k_diag_unusable := false; k_exec_nested := true; k_std_closed := false |}.
+
 (** diagnostic of a failed redirection; flagged when descriptor 2 cannot take it *)
-Definition spec_diag (m : msgtable) (style : nat) (w : world) (T : tbl) (e : rerr) : world * flags :=
+Definition spec_diag (m : msgtable) (w : world) (T : tbl) (e : rerr) : world * flags :=
   let '(k, a) := err_kind e in
   match flat_lookup T 2%nat with
-  | None => (w, {| k_bothclobber := false; k_compound_fail := true; k_exec_nested := false; k_std_dup := false; k_std_closed := false; k_selfdup := false |})
-  | Some id => match k_write w id (msg m style k a) with
+  | None => (w, fl_diag)
+  | Some id => match k_write w id (msg m 0 k a) with
                | (w', true) => (w', no_flags)
-               | (_, false) => (w, {| k_bothclobber := false; k_compound_fail := true; k_exec_nested := false; k_std_dup := false; k_std_closed := false; k_selfdup := false |})
+               | (_, false) => (w, fl_diag)
                end
   end.
-
-Definition fl_compound := {| k_bothclobber := false; k_compound_fail := true; k_exec_nested := false; k_std_dup := false; k_std_closed := false; k_selfdup := false |}.
-Definition fl_exec := {| k_bothclobber := false; k_compound_fail := false; k_exec_nested := true; k_std_dup := false; k_std_closed := false; k_selfdup := false |}.
-Definition fl_both0 (b : bool) := {| k_bothclobber := b; k_compound_fail := false; k_exec_nested := false; k_std_dup := false; k_std_closed := false; k_selfdup := false |}.
-
-Definition fl_self (b : bool) := {| k_bothclobber := false; k_compound_fail := false; k_exec_nested := false; k_std_dup := false; k_std_closed := false; k_selfdup := b |}.
 
 Section Run.
 Variable nc : bool.
 Variable m : msgtable.
-Definition fl_cls (w : world) (T : tbl) (rs : list redir) : flags := for_ (fl_both0 (both_clobber nc w T rs)) (fl_self (selfdup_closed nc w T rs)).
 
 (** [ctx]: some enclosing construct carries redirections *)
 Fixpoint srun_cmd (c : cmd) (ctx : bool) (w : world) (T : tbl) {struct c} : world * tbl * flags :=
@@ -109,42 +63,37 @@ Fixpoint srun_cmd (c : cmd) (ctx : bool) (w : world) (T : tbl) {struct c} : worl
     end in
   match c with
   | CSimple rs a =>
-      let fb := fl_cls w T rs in
       match spec_apply nc w T rs with
-      | (w1, T1, Some e) => let '(w2, f) := spec_diag m 0 w1 T1 e in (w2, T, for_ fb f)
-      | (w1, T1, None) => let '(w2, f) := spec_action m w1 T1 a in (w2, T, for_ fb f)
+      | (w1, T1, Some e) => let '(w2, f) := spec_diag m w1 T1 e in (w2, T, f)
+      | (w1, T1, None) => let '(w2, f) := spec_action m w1 T1 a in (w2, T, f)
       end
   | CExec rs =>
-      let fb := fl_cls w T rs in
       match spec_apply nc w T rs with
-      | (w1, T1, Some e) => let '(w2, f) := spec_diag m 0 w1 T1 e in (w2, T, for_ fb f)
-      | (w1, T1, None) => (w1, T1, for_ fb (if ctx then fl_exec else no_flags))
+      | (w1, T1, Some e) => let '(w2, f) := spec_diag m w1 T1 e in (w2, T, f)
+      | (w1, T1, None) => (w1, T1, if ctx then fl_exec else no_flags)
       end
   | CGroup k body rs =>
-      let fb := fl_cls w T rs in
       let ctx' := ctx || match rs with [] => false | _ => true end in
       match spec_apply nc w T rs with
-      | (w1, T1, Some e) => let '(w2, f) := spec_diag m 1 w1 T1 e in (w2, T, for_ fb (for_ fl_compound f))
+      | (w1, T1, Some e) => let '(w2, f) := spec_diag m w1 T1 e in (w2, T, f)
       | (w1, T1, None) =>
           match k with
-          | GBrace => let '(w2, T2, f) := srun_list body ctx' w1 T1 in (w2, restore T T2 (touched rs), for_ fb f)
+          | GBrace => let '(w2, T2, f) := srun_list body ctx' w1 T1 in (w2, restore T T2 (touched rs), f)
           | GLoop => let '(w2, T2, f) := srun_list body ctx' w1 T1 in
-                     let '(w3, T3, f') := srun_list body ctx' w2 T2 in (w3, restore T T3 (touched rs), for_ fb (for_ f f'))
-          | GSubshell => let '(w2, _, f) := srun_list body ctx' w1 T1 in (w2, T, for_ fb f)
+                     let '(w3, T3, f') := srun_list body ctx' w2 T2 in (w3, restore T T3 (touched rs), for_ f f')
+          | GSubshell => let '(w2, _, f) := srun_list body ctx' w1 T1 in (w2, T, f)
           end
       end
   | CFunc body drs crs =>
-      let fb := fl_cls w T crs in
       match spec_apply nc w T crs with
-      | (w1, T1, Some e) => let '(w2, f) := spec_diag m 0 w1 T1 e in (w2, T, for_ fb f)
+      | (w1, T1, Some e) => let '(w2, f) := spec_diag m w1 T1 e in (w2, T, f)
       | (w1, T1, None) =>
-          let fb2 := fl_cls w1 T1 drs in
           let ctx' := ctx || match crs ++ drs with [] => false | _ => true end in
           match spec_apply nc w1 T1 drs with
-          | (w2, T2, Some e) => let '(w3, f) := spec_diag m 1 w2 T2 e in (w3, T, for_ fb (for_ fb2 (for_ fl_compound f)))
+          | (w2, T2, Some e) => let '(w3, f) := spec_diag m w2 T2 e in (w3, T, f)
           | (w2, T2, None) =>
               let '(w3, T3, f) := srun_list body ctx' w2 T2 in
-              (w3, restore T T3 (touched (crs ++ drs)), for_ fb (for_ fb2 f))
+              (w3, restore T T3 (touched (crs ++ drs)), f)
           end
       end
   end.
